@@ -13,6 +13,7 @@ line feed, `|`, blank, `;`, `,` and `{` are outside `\w` (true of the regex crat
 -/
 import Rsbdd.Proofs.CliNames
 import Rsbdd.Thm.C10E
+import Rsbdd.Thm.C20
 namespace Rsbdd.C10
 open BDD Cli Formula Parser Cli.Text
 
@@ -82,6 +83,51 @@ theorem stdout_read_back {cs : List Ch} {ordering : Option (List Ch)} {ord : Lis
             split at hvl
             · exact trueVarRows_names _ _ hlabels _ _ _ hvl l hl
             · cases hvl; simp at hl
+        · simp at hrun
+
+
+/-- C10 from the bytes: for every run of `rsbdd -t` (no `-m`, no `-c`, one evaluation) that succeeds, the text on
+standard output, read back by `readStdout`, has exactly the rows the run printed, and those rows are a faithful
+partition: pairwise disjoint partial assignments of the free variables; every assignment whose documented truth value
+passes the filter is covered; the result column of a covering row is the formula's documented truth value -/
+theorem stdout_table_faithful {cs : List Ch} {ordering : Option (List Ch)} {ord : List (String × Nat)}
+    {iters fuel : Nat} {o : Options} {out : Output}
+    (clsOf : Char → Cls) (hsep : ∀ c ∈ ['\n', '|', ' ', ';', ','], clsOf c = .other) (hbr : clsOf '{' = .other)
+    (hcls : ∀ x ∈ cs, x.cls = clsOf x.c)
+    (hord : orderingOf ordering = some ord) (ho : OrderingOk ord)
+    (hopt : o.truthtable = true ∧ o.model = false ∧ o.retain = .any ∧ o.benchmark = none)
+    (hg : ∀ ts p, tokenize cs ord = some ts → newWithEnv ts = some p → GoodF p.formula)
+    (hrun : run iters fuel cs ordering o = some out) :
+    ∃ ts p, tokenize cs ord = some ts ∧ newWithEnv ts = some p ∧
+      (readStdout (render out)).map (·.rows) = some out.rows ∧
+      (∀ σ (tv : Bool), (tv = true ↔ Sem p.formula FEnv.empty σ) → Filter.passes o.filter tv = true →
+        ∃ r ∈ out.rows, Covers r.cells (p.freeVars.map (·.2)) σ) ∧
+      (∀ r ∈ out.rows, ∀ σ, Covers r.cells (p.freeVars.map (·.2)) σ → (r.result = true ↔ Sem p.formula FEnv.empty σ)) ∧
+      out.rows.Pairwise (fun r r' => ∀ σ, ¬ (Covers r.cells (p.freeVars.map (·.2)) σ ∧ Covers r'.cells (p.freeVars.map (·.2)) σ)) := by
+  have hread := stdout_read_back clsOf hsep hbr hcls hord ho hrun
+  obtain ⟨htt, hm, hc, hb⟩ := hopt
+  unfold run at hrun
+  simp only [hord, htt, hm, hc, hb, Option.getD_none] at hrun
+  split at hrun
+  · simp at hrun
+  · rename_i ts ht
+    split at hrun
+    · simp at hrun
+    · rename_i p hp
+      refine ⟨ts, p, ht, hp, by rw [hread]; rfl, ?_⟩
+      simp only [show ((1 : Nat) == 0) = false from rfl, Bool.false_eq_true, ite_false] at hrun
+      split at hrun
+      · simp at hrun
+      · rename_i r0 he
+        obtain ⟨rs, hrows, hcov, hsound, hdisj⟩ := table_faithful o.filter ht hp (hg ts p ht hp) he
+        simp only [C20.retain_any, Bool.false_eq_true, ite_false, ite_true] at hrun
+        simp only [blank] at hrows
+        split at hrun
+        · rename_i rows vl h1 h2
+          rw [hrows] at h1
+          cases h1
+          cases hrun
+          exact ⟨hcov, hsound, hdisj⟩
         · simp at hrun
 
 
